@@ -23,21 +23,37 @@ structure Out where
   written : Bytes := []          -- every byte handed to interface->write, in order
   flushes : Nat := 0
   pushed : List Int := []        -- error codes pushed by the writers themselves (-310, -311 …)
+  -- ghost state (never read by the model's control flow; used to state the framing property):
+  gCur : Bytes := []             -- payload bytes of the result item under construction
+  gItems : List Bytes := []      -- completed result items of the current unit
+  gUnits : List (List Bytes) := []   -- items of the units finished so far in this message
+  gPartial : Bool := false       -- the result API was used outside its item protocol: some unit ended with an
+                                 -- unfinished item (a block whose data never completed), a new item was started
+                                 -- inside an unfinished one, or block data arrived with no block under construction
 deriving Repr, DecidableEq
 
 def bytesOf (s : String) : Bytes := s.toUTF8.toList
 def charsToBytes (cs : List Char) : Bytes := cs.map (fun c => UInt8.ofNat c.toNat)
 
-/-- writeData: nothing for len = 0 -/
-def writeData (o : Out) (d : Bytes) : Out := { o with written := o.written ++ d }
+/-- writeData of payload bytes: nothing for len = 0 -/
+def writeData (o : Out) (d : Bytes) : Out := { o with written := o.written ++ d, gCur := o.gCur ++ d }
 
-/-- writeDelimiter -/
+/-- writeData of a separator / terminator (not part of any item) -/
+def writeSep (o : Out) (d : Bytes) : Out := { o with written := o.written ++ d }
+
+/-- writeDelimiter (ghost: a delimiter while an item is still under construction is recorded in gPartial) -/
 def writeDelimiter (o : Out) : Out :=
-  if o.outputCount > 0 then writeData o [44]
-  else if o.outputCount < 0 then writeData { o with outputCount := 0 } [59]
+  let o := { o with gPartial := o.gPartial || !o.gCur.isEmpty }
+  if o.outputCount > 0 then writeSep o [44]
+  else if o.outputCount < 0 then writeSep { o with outputCount := 0 } [59]
   else o
 
-def bump (o : Out) : Out := { o with outputCount := o.outputCount + 1 }
+/-- context->output_count++ : the item under construction is complete -/
+def bump (o : Out) : Out := { o with outputCount := o.outputCount + 1, gItems := o.gItems ++ [o.gCur], gCur := [] }
+
+/-- ghost: a unit ends (processCommand returns) -/
+def endUnit (o : Out) : Out :=
+  { o with gUnits := o.gUnits ++ [o.gItems], gItems := [], gCur := [], gPartial := o.gPartial || !o.gCur.isEmpty }
 
 /-- SCPI_ResultCharacters / SCPI_ResultMnemonic -/
 def resultCharacters (o : Out) (d : Bytes) : Out := bump (writeData (writeDelimiter o) d)
@@ -111,7 +127,7 @@ def errParts : Nat → List (Option Bytes) → Out → Nat → Out
     | none => o                                    -- data[i] == NULL ends the loop
     | some d =>
       if lim = 0 then o else
-      let (o, lim) := if i == 1 then ((if o.outputCount > 0 then writeData o [59] else o), lim - 1) else (o, lim)
+      let (o, lim) := if i == 1 then ((if o.outputCount > 0 then writeData o [59] else o), lim - 1) else (o, lim)   -- writeSemicolon: part of the string
       let len := d.length
       let len := if len > lim then lim else len
       let (o, d, len, lim) := errPartLoop (d.length + 1) o d len lim
@@ -126,7 +142,9 @@ def resultError (o : Out) (code : Int) (desc : Bytes) (parts : List (Option Byte
   let o := writeDelimiter o
   let o := writeData o [34]
   let o := errParts 0 (some desc :: parts) o Gen.SCPI_STD_ERROR_DESC_MAX_STRING_LENGTH.toNat
-  writeData o [34]
+  let o := writeData o [34]
+  -- ghost: the string is a result item of its own although output_count is not incremented for it
+  { o with gItems := o.gItems ++ [o.gCur], gCur := [] }
 
 /-- SCPI_ErrorTranslate over the generated list -/
 def errorTranslate (code : Int) : Bytes :=
@@ -148,9 +166,12 @@ def resultBlockHeader (o : Out) (len : Nat) : Out :=
 def resultBlockData (o : Out) (d : Bytes) : Out :=
   if o.arbRemaining < d.length then { o with pushed := o.pushed ++ [-310] }
   else
-    let o := { o with arbRemaining := o.arbRemaining - d.length }
-    let o := if o.arbRemaining == 0 then bump o else o
-    writeData o d
+    -- ghost: block data while no item is under construction (no header before it) is recorded in gPartial
+    let o := { o with arbRemaining := o.arbRemaining - d.length, gPartial := o.gPartial || o.gCur.isEmpty }
+    -- C increments output_count before the writeData call; writeData does not read it, and the ghost
+    -- item has to be closed after its last bytes, so the model writes first
+    let o := writeData o d
+    if o.arbRemaining == 0 then bump o else o
 
 /-- SCPI_ResultArbitraryBlock -/
 def resultBlock (o : Out) (d : Bytes) : Out := resultBlockData (resultBlockHeader o d.length) d
@@ -170,6 +191,6 @@ def resultArrayBinary (o : Out) (elems : List Bytes) (itemSize : Nat) (sameOrder
 
 /-- writeNewLine -/
 def writeNewLine (o : Out) : Out :=
-  if !o.firstOutput then { (writeData o (bytesOf Gen.LINE_ENDING)) with flushes := o.flushes + 1 } else o
+  if !o.firstOutput then { (writeSep o (bytesOf Gen.LINE_ENDING)) with flushes := o.flushes + 1 } else o
 
 end ScpiVerif.Result
